@@ -13,7 +13,7 @@ class P(piperun.PipeProperty):
     def relevant(self, p):
         return p['op'] != 'cycle'
 
-    source_modes = ('pickle', 'pickle', 'wu', 'copy')
+    source_modes = ('pickle', 'pickle', 'wu', 'copy', 'pickle', 'from', 'from_dataset')
 
     def oracle(self, p, obs):
         return oracles.c03(p, obs)
